@@ -8,6 +8,14 @@ for f in sys.argv[2:]:
         c = l.rstrip('\n').split('\t')
         if len(c) >= 6: res[(c[0], c[1])] = c
 HIST = {
+ ('seed5','C07'): 'missed at first (needs an explicit nodelist in another order than G.nodes()): the node-level models now get a rotated, reversed nodelist; caught since',
+ ('seed5','C08'): 'missed at first (needs phiS0 = 0 passed explicitly): explicit zero phiS0 / phiR0 cases added; caught since',
+ ('seed5','C10'): 'caught only as a broken correspondence at first (no-failing-input-found): node subsets are now handed to summary() as list / tuple / iterator / generator / dict keys and the oracle shows the dropped node',
+ ('seed5','C14'): 'missed at first (needs a same-instant tie): tie-rich integer rule tables for fast_nonMarkov_SIS added after 3600 such cases agreed across presentations on the unchanged code; caught since (also by C13 all along)',
+ ('seed5','C15'): 'missed at first (the biased choice lives in _ListDict_, which C16 caught all along): the selection-law oracle on the class now also runs inside C15, C01, C02, C03; caught since',
+ ('seed5','C17'): 'missed at first (needs a directed contact network and a rule that fires on the reverse of a one-way arc): the rule now also fires on pairs that are no contact of G; caught since',
+ ('seed5','C18'): 'caught statically at first (regenerated loop table, no-failing-input-found): a directed simple-contagion case with string labels joined the battery and now shows the hash-seed dependence',
+ ('seed5','C20'): 'missed at first (needs degree != number of distinct neighbours): self-loop, MultiGraph and DiGraph inputs added; caught since',
  ('seed','C08'): 'missed at first: the tree-exactness oracle was extended with multi-seed, weighted cases; caught since',
  ('seed','C18'): 'missed at first: the battery got explicit initial sets with initially recovered nodes, three seeds, tmin != 0; caught since',
  ('seed','C19'): 'caught statically at first (no-failing-input-found); the dynamic battery got explicit XY0/XX0 arrays and now shows the modified argument',
